@@ -634,3 +634,8 @@ def wif_payload_length(ctx):
         else:
             ctx.require(end is not None and isinstance(kb, bytes) and len(kb) == want, q, 'a well-formed WIF payload of %d bytes is %s' % (len(payload), 'refused' if end is None else 'imported with %s bytes' % (len(kb) if isinstance(kb, bytes) else '?')), blks[0])
     ctx.floor(n, 6, 'WIF payload scenarios')
+
+
+PROP.obligation('C11.witness-version-decoded', canaries=[
+    mut.replace_expr('keys', 'deserialize_address', "'p2wsh' if not witver else 'p2tr'", "'p2wsh'", 'a 32-byte program of version 1..16 re-encodes as a version-0 address'),
+])(_c05.deser)
